@@ -123,14 +123,14 @@ Proof.
 Qed.
 
 Theorem fdb_literal_line_emits_its_value f l :
-  well_formed_fields f -> upper_t (lf_mn f) = FDB_t -> lf_ops f = lit_text l -> lit_ok l -> lit_value l <= 65535 ->
+  well_formed_fields f -> upper_t (lf_mn f) = FDB_t -> lf_ops f = lit_text l -> lit_ok l ->
   exists st p, parse_line (line_of f) = Ok (Some st) /\ s_label st = lf_label f /\
     (forall tb, resolve_operand (s_operand st) (s_instr st) tb = Ok (s_operand st)) /\
     translate_operand (s_operand st) (s_instr st) = Ok p /\
     cp_size p = 2 /\ emit_value (cp_op p) = Ok [] /\ emit_value (cp_post p) = Ok [] /\
     emit_value (cp_add p) = Ok [lit_value l / 256; lit_value l mod 256].
 Proof.
-  intros Hf Hm Ho Hl Hle.
+  intros Hf Hm Ho Hl. pose proof (lit_value_16bit l Hl) as Hle.
   destruct (find_instr FDB_t Tables.instructions) as [i|] eqn:Hi; [|vm_compute in Hi; discriminate].
   assert (Hrow : Tables.is_string_define i = false /\ Tables.is_pseudo i = true /\ Tables.is_multi_byte i = false /\
                  Tables.is_multi_word i = true /\
